@@ -134,6 +134,7 @@ let preds : (string * (val0 list -> bool)) list = [
   ("c10_pred", c10_pred);
   ("c10_trans_pred", c10_trans_pred);
   ("c17_ctor_pred", c17_ctor_pred);
+  ("c17_lazy_pred", c17_lazy_pred);
   ("c17_set_pred", c17_set_pred);
 ]
 
